@@ -1,8 +1,10 @@
 package hx
 
 import (
+	"bytes"
 	"errors"
 	"fmt"
+	"io"
 	"os"
 
 	"github.com/gdamore/tcell/v2"
@@ -24,6 +26,8 @@ type Tty struct {
 	W, H int
 
 	pending []byte
+	bounds  []int // lengths of the upcoming reads (FeedChunks)
+	sink    bytes.Buffer
 	// ReadErr, if set, is returned by the first Read that finds no pending
 	// data after ErrAfter more bytes have been delivered.
 	ReadErr  error
@@ -44,6 +48,7 @@ type Tty struct {
 	StartFailAt  int  // fail the n-th Start (1-based); 0 = never
 	WinSizeFail  bool // WindowSize returns an error while set
 	WriteFail    bool // Write returns an error while set
+	DrainErrs    int  // the next n Drains return an error (after waking the reader)
 	FailWrites   int  // the next n Writes fail with nothing written
 	ShortWrite   int  // the next Write longer than this accepts only this many bytes, then fails (0 = off)
 	OnFault      func(kind string)
@@ -80,6 +85,21 @@ func (t *Tty) log(kind string, n int, err bool) {
 
 // Feed makes bytes available to Read (the terminal sends input).
 func (t *Tty) Feed(b []byte) { t.pending = append(t.pending, b...) }
+
+// FeedChunks adds input whose read boundaries are fixed: each chunk is
+// returned by one Read (or several, if the reader's buffer is smaller),
+// never merged with the next.
+func (t *Tty) FeedChunks(chunks [][]byte) {
+	if len(t.pending) > 0 && len(t.bounds) == 0 {
+		t.bounds = append(t.bounds, len(t.pending))
+	}
+	for _, c := range chunks {
+		if len(c) > 0 {
+			t.pending = append(t.pending, c...)
+			t.bounds = append(t.bounds, len(c))
+		}
+	}
+}
 
 // Pending returns the number of bytes not yet read.
 func (t *Tty) Pending() int { return len(t.pending) }
@@ -139,6 +159,12 @@ func (t *Tty) Drain() error {
 		return nil
 	}
 	t.Drained = true
+	if t.DrainErrs > 0 {
+		// the reader is woken, but the call reports an error (EINTR...)
+		t.DrainErrs--
+		t.Faults.Inc("drain_error")
+		return ErrInjected
+	}
 	return nil
 }
 
@@ -211,10 +237,25 @@ func (t *Tty) Read(b []byte) (int, error) {
 			max = t.ErrAfter
 		}
 		n := max - t.S.Chooser().IO(max)
+		if len(t.bounds) > 0 {
+			// preset read boundaries (FeedChunks): this read ends at the next one
+			n = max
+			if n > t.bounds[0] {
+				n = t.bounds[0]
+			}
+			t.bounds[0] -= n
+			if t.bounds[0] == 0 {
+				t.bounds = t.bounds[1:]
+			}
+		}
 		if n < len(t.pending) {
 			t.Faults.Inc("read_split")
 		}
-		copy(b, t.pending[:n])
+		// (copied by the standard library, which a -race build instruments:
+		// the store into the caller's buffer is then visible to the detector)
+		// (through io.ReadFull, so that the copy is made by the library's own
+		// compiled code and not by a body inlined into this package)
+		_, _ = io.ReadFull(bytes.NewReader(t.pending[:n]), b[:n])
 		t.pending = t.pending[n:]
 		if t.ReadErr != nil {
 			t.ErrAfter -= n
@@ -268,6 +309,10 @@ func (t *Tty) Write(b []byte) (int, error) {
 	}
 	t.log("Write", len(b), false)
 	t.WriteOut += len(b)
+	// (the terminal reads the caller's buffer: done by the library's compiled
+	// code, so that a -race build sees the read)
+	t.sink.Reset()
+	_, _ = io.Copy(&t.sink, bytes.NewReader(b))
 	if t.S.TraceOn {
 		t.S.Note(fmt.Sprintf("%s writes %q", t.who(), b))
 	}
